@@ -350,3 +350,50 @@ func bytesJoin(xs [][]byte) []byte {
 	}
 	return out
 }
+
+// Calls that end on a FULL 1024-byte frame (the stream handed to Decrypt ends right after it,
+// as hap.Connection does frame by frame): the counter has advanced by exactly the frames
+// released, so the peer's next frame is accepted in a second call, and the same frames
+// presented again are rejected and release nothing.
+func Harness_C05_q_full_frame_then_next_call() {
+	var secret [32]byte
+	copy(secret[:], verif.Bytes("secret", 32))
+	accC, _ := NewSecureSessionFromSharedKey(secret)
+	ctlC, _ := NewSecureClientSessionFromSharedKey(secret)
+	acc, ctl := accC.(*secureSession), ctlC.(*secureSession)
+	c0 := verif.U64("c0")
+	verif.Assume(c0 < 0xffffffffffffff00)
+	acc.decryptCount, ctl.encryptCount = c0, c0
+	n1 := []int{1024, 2048, 1}[verif.Choice("first-len", 3)]
+	P1 := verif.Bytes("p1", n1)
+	r, _ := ctl.Encrypt(bytes.NewBuffer(append([]byte{}, P1...)))
+	W1, _ := ioutil.ReadAll(r)
+	P2 := verif.Bytes("p2", []int{1, 1024}[verif.Choice("second-len", 2)])
+	r, _ = ctl.Encrypt(bytes.NewBuffer(append([]byte{}, P2...)))
+	W2, _ := ioutil.ReadAll(r)
+	out, err := acc.Decrypt(bytes.NewBuffer(append([]byte{}, W1...)))
+	verif.Assert(err == nil, "first-message-accepted")
+	if err != nil {
+		return
+	}
+	got, _ := ioutil.ReadAll(out)
+	verif.Assert(verif.Eq(got, P1), "first-message-plaintext")
+	if verif.Choice("second-call", 2) == 0 {
+		verif.Fact("second-call", "replay of the first message")
+		out, err = acc.Decrypt(bytes.NewBuffer(append([]byte{}, W1...)))
+		verif.Assert(err != nil, "replayed-frames-rejected")
+		if out != nil {
+			g, _ := ioutil.ReadAll(out)
+			verif.Assert(len(g) == 0, "replay-releases-nothing")
+		}
+	} else {
+		verif.Fact("second-call", "the peer's next message")
+		out, err = acc.Decrypt(bytes.NewBuffer(append([]byte{}, W2...)))
+		verif.Assert(err == nil, "next-message-accepted")
+		if err == nil {
+			g, _ := ioutil.ReadAll(out)
+			verif.Assert(verif.Eq(g, P2), "next-message-plaintext")
+		}
+	}
+	verif.Reach("end")
+}
